@@ -7,6 +7,7 @@ import (
 	"go/types"
 	"os"
 	"path/filepath"
+	"runtime/pprof"
 	"sort"
 	"strings"
 	"time"
@@ -49,6 +50,11 @@ func main() {
 	if len(os.Args) < 2 {
 		usage()
 	}
+	if pf := os.Getenv("GOVC_PROF"); pf != "" {
+		fh, _ := os.Create(pf)
+		pprof.StartCPUProfile(fh)
+		defer pprof.StopCPUProfile()
+	}
 	switch os.Args[1] {
 	case "check":
 		if len(os.Args) < 3 {
@@ -63,7 +69,9 @@ func main() {
 		only := fs.String("only", "", "only targets whose name contains this text (debugging; evidence is not written)")
 		noEv := fs.Bool("no-evidence", false, "do not write the evidence file")
 		fs.Parse(os.Args[3:])
-		os.Exit(runCheck(id, *only, *noEv))
+		code := runCheck(id, *only, *noEv)
+		pprof.StopCPUProfile()
+		os.Exit(code)
 	case "replay":
 		if len(os.Args) < 3 {
 			usage()
@@ -184,13 +192,16 @@ func runCheck(id, only string, noEv bool) int {
 		}
 	}
 	tLoad := time.Since(t0)
+	theProg = prog
 	e := newEngine(prog, spkgs)
 	all := allFuncs(prog, spkgs)
 	e.all = all
 	pkgPathOf := map[string]string{}
+	ssaPkgOf := map[string]*ssa.Package{}
 	for i, p := range pkgs {
 		if spkgs[i] != nil && len(p.GoFiles) > 0 {
 			pkgPathOf[filepath.Dir(p.GoFiles[0])] = spkgs[i].Pkg.Path()
+			ssaPkgOf[filepath.Dir(p.GoFiles[0])] = spkgs[i]
 		}
 	}
 	var targets []*Target
@@ -231,12 +242,18 @@ func runCheck(id, only string, noEv bool) int {
 				return die(2, id, "%s:%d: function %s not found", d.File, d.Line, d.Fn)
 			}
 			e.opaque[fn.String()] = true
+		case "global":
+			fn := resolveFn(all, pp, d.Fn)
+			if fn == nil {
+				return die(2, id, "%s:%d: spec function %s not found", d.File, d.Line, d.Fn)
+			}
+			e.globals = append(e.globals, &GlobalInv{D: d, Fn: fn})
 		case "assume": // an assumed contract of a function that is not verified (trusted; listed in the evidence)
 			fn := resolveFn(all, pp, d.Fn)
 			if fn == nil {
 				return die(2, id, "%s:%d: function %s not found", d.File, d.Line, d.Fn)
 			}
-			c := &Contract{D: d, Fn: fn}
+			c := &Contract{D: d, Fn: fn, SpecPkg: ssaPkgOf[d.PkgDir]}
 			if m := argVal(d, "modifies"); m != "" {
 				c.Modifies = strings.Split(m, ",")
 			}
@@ -271,6 +288,12 @@ func runCheck(id, only string, noEv bool) int {
 	}
 	if len(targets) == 0 {
 		return die(2, id, "no function under contract for this property")
+	}
+	for _, g := range e.globals {
+		g.Fn.Pkg.Build()
+		if off := globalFrame(g, all); off != "" {
+			return die(2, id, "global invariant %s cannot be assumed: %s", g.D.Fn, off)
+		}
 	}
 	// 3. generate verification conditions
 	tGen0 := time.Now()
